@@ -447,7 +447,7 @@ def replay_restart(payload):
 
 # ------------------------------------------------------------------ batch / evidence
 TIERS = {
-    "quick": {"runs": 2400, "chunk": 25, "wall_cap": 600, "restart_frac": 0.3, "hashseeds": [1]},
+    "quick": {"runs": 8000, "chunk": 50, "wall_cap": 900, "restart_frac": 0.3, "hashseeds": [1]},
     "thorough": {"runs": 40000, "chunk": 100, "wall_cap": 3400, "restart_frac": 0.5, "hashseeds": [1, 4242]},
 }
 
@@ -458,7 +458,11 @@ def batch(task):
     tier = TIERS[task.get("tier", "quick")]
     agg = new_agg()
     for run in range(lo, hi):
-        res, program = one_run(seed, run, force_config=task.get("config"))
+        try:
+            res, program = runner.guarded(one_run, 120, seed, run, force_config=task.get("config"))
+        except (runner.RunTimeout, lang.HarnessError) as e:
+            agg["harness"].append({"run": run, "why": repr(e)[:200]})
+            continue
         fold(agg, res, program)
         if len(agg["violations"]) >= 12:
             break
